@@ -131,6 +131,12 @@ Definition model_zero_guard (a : acase) : list Z :=
    mask_of (fun s => match s with Old _ => true | _ => false end) 0 (z_slots r);
    Z.of_nat (List.length (z_dropped r))] ++ map Z.of_nat (z_dropped r).
 
+(* 363 / 364: the same over zero-sized droppable elements: no bytes to observe, only the destructor calls *)
+Definition model_zero_guard_zst (a : acase) : list Z :=
+  let n := Z.to_nat (a_len a) in let j := Z.to_nat (a_cap a) in
+  let r := fill_zeroes_drop (fun id => Nat.eqb id j) (map Old (seq 0 n)) in
+  [zb (z_panicked r); a_len a; 0; 0; Z.of_nat (List.length (z_dropped r))] ++ map Z.of_nat (z_dropped r).
+
 (* ---- 381 / 382: handle histories ---- *)
 Definition hop_of (n : N) : hop :=
   match n with 0 => HClone | 1 => HDowngrade | 2 => HUpgrade | 3 => HCast | 4 => HDropStrong | _ => HDropWeak end%N.
@@ -154,6 +160,7 @@ Definition amodel (a : acase) : list Z :=
       | 351%N | 352%N | 353%N | 354%N => model_zeroed a
       | 355%N => [1; 1; 1]
       | 361%N | 362%N => model_zero_guard a
+      | 363%N | 364%N => model_zero_guard_zst a
       | 371%N => [32767; 1]
       | 372%N => [255; 0; 0; 0]
       | 373%N => [1023]
@@ -283,6 +290,11 @@ Definition mon_c12 (a : acase) (v : list Z) : bool :=
        else need_alloc && (overflow || fail) && (if overflow then nthz 4 v =? 0 else true))
   | 354%N => (nthz 0 v =? 1) && (nthz 1 v =? a_len a) && (nthz 3 v =? 1) && (nthz 4 v =? 1) && (nthz 8 v =? 0)
   | 355%N => (nthz 0 v =? 1) && (nthz 1 v =? 1) && (nthz 2 v =? 1)
+  | 363%N | 364%N => (* zero-sized droppable elements: destructors 0..j ran once each in order, unwinding iff one panicked *)
+      let nn := a_len a in let j := a_cap a in
+      let upto := if j <? nn then j + 1 else nn in
+      (nthz 0 v =? zb (j <? nn)) && (nthz 1 v =? nn) && (nthz 4 v =? upto) &&
+      zlist_eqb (skipn 5 v) (map Z.of_nat (seq 0 (Z.to_nat upto)))
   | _ => (* 361 / 362: slots up to and including the panicking one zeroed, later ones untouched,
             destructors 0..j ran once each in order, unwinding iff one panicked *)
       let nn := a_len a in let j := a_cap a in
@@ -321,7 +333,7 @@ Definition amonitors (a : acase) (v : list Z) : list (N * bool) :=
       | 331%N | 332%N => [(15%N, mon_c15_from a v); (9%N, mon_c15_from a v)]
       | 333%N | 334%N => [(15%N, mon_c15_from a v); (11%N, mon_c15_from a v)]
       | 341%N => [(16%N, mon_c16 a v)]
-      | 351%N | 352%N | 353%N | 354%N | 355%N | 361%N | 362%N => [(12%N, mon_c12 a v)]
+      | 351%N | 352%N | 353%N | 354%N | 355%N | 361%N | 362%N | 363%N | 364%N => [(12%N, mon_c12 a v)]
       | 371%N | 373%N => [(13%N, mon_c13 a v)]
       | 372%N => [(13%N, mon_c13 a v); (9%N, mon_c13 a v)]
       | 381%N | 382%N => [(9%N, mon_hist a v); (10%N, mon_hist a v)]
